@@ -156,7 +156,11 @@ def make_obj(desc):
         fe = zoo._make_fevals("spline", N1, rng, "SEP", bounds)[0]
         return fe, "spline"
     if k == "model":
-        st = zoo.make_settings(desc["settings"], rng)
+        st = zoo.make_settings(desc["settings"], rng, vary_normalizers=True)
+        if getattr(st, "sdmx_settings", None) is not None and derive("fsim-itype", json.dumps(desc, sort_keys=True)) % 3 == 0:
+            # the optional integral type of the SDMX features, selected after construction as
+            # the package's own tests do: it is part of the functional that is saved
+            st.sdmx_settings._integral_type = "gauss_r2"
         m = zoo.make_model(
             st, rng, evaluator=desc["ev"], mode=desc["mode"], version=desc["version"], nkernel=desc.get("nkernel", 1), layout=desc.get("layout")
         )
@@ -254,6 +258,20 @@ def eval_model(m, seed):
     st = m.settings
     h.update(str(st.nfeat).encode())
     _add(h, np.asarray(st.get_feat_usps(), dtype=float))
+    # public switches of the settings that decide how the features of this model are generated
+    # (they do not enter the evaluation below, but a reloaded model that generates other
+    # features is another functional)
+    for sub in ("sl_settings", "nldf_settings", "sdmx_settings"):
+        ss = getattr(st, sub, None)
+        for attr in ("integral_type", "mode", "level", "nldf_type", "rho_mult", "n0terms", "n1terms", "nfeat"):
+            if ss is not None and hasattr(ss, attr):
+                try:
+                    h.update(("%s.%s=%r" % (sub, attr, getattr(ss, attr))).encode())
+                except Exception as e:
+                    h.update(("%s.%s!%s" % (sub, attr, type(e).__name__)).encode())
+    nl_ = getattr(st, "normalizers", None)
+    if nl_ is not None and hasattr(nl_, "cutoff"):
+        h.update(("cutoff=%r" % float(nl_.cutoff)).encode())
     try:
         _add(h, np.asarray(st.ueg_vector(0.7, with_normalizers=True), dtype=float))
     except Exception as e:  # some settings have no UEG value; the *type* of failure must agree
@@ -1358,18 +1376,29 @@ def run_analyzer(spec):
     rp = {"property": PROP, "engine": "fsim", "case": spec}
     rng = Rng(derive("analyzer", spec["seed"]))
     uks = bool(rng.chance(0.5))
-    mol = zoo.make_mol(rng.choice(["H2", "LiH", "H2O"] if not uks else ["OH", "O", "H2"]), "sto-3g")
+    # a restricted open-shell reference: a restricted analyzer that holds both spin densities
+    rohf = bool(spec["seed"] % 5 == 0)
+    if rohf:
+        uks = False
+    mol = zoo.make_mol(rng.choice(["H2", "LiH", "H2O"] if not (uks or rohf) else ["OH", "O", "H2"]), "sto-3g")
     nao = mol.nao_nr()
     r = np.random.default_rng(spec["seed"])
-    dm = zoo.make_dm(mol, rng, 2 if uks else 1)
+    dm = zoo.make_dm(mol, rng, 2 if (uks or rohf) else 1)
     cls = UHFAnalyzer if uks else RHFAnalyzer
     shape = (2, nao) if uks else (nao,)
+    ck.stats["analyzer_rohf"] += int(rohf)
     def build(k):
         # optional orbital data may be absent (None entries are not written)
         mo = {"mo_occ": r.uniform(0, 2, shape), "mo_coeff": r.normal(size=shape + (nao,)), "mo_energy": r.normal(size=shape)}
         for name in list(mo):
             if rng.chance(0.25):
                 mo[name] = None
+        if spec["seed"] % 3 == 1:
+            # a bare analyzer (built from a density matrix alone) written over a file that
+            # holds a full one
+            for name in list(mo):
+                if k == 0:
+                    mo[name] = None
         a = cls(mol, dm if k == 0 else dm * (1.0 + 0.01 * k), grids_level=rng.choice([0, 0, 1]), **mo)
         a.set("ex_energy_density", r.normal(size=a.grids.weights.size))
         a.set("some_scalar", np.float64(r.normal()))
